@@ -1,5 +1,5 @@
 PROP = {
-    "modules": ["IdenaModel.Props.C01", "IdenaModel.Props.C01Epoch"],
+    "modules": ["IdenaModel.Props.C01", "IdenaModel.Props.C01Epoch", "IdenaModel.Props.C01Shards"],
     "theorems": ["IdenaModel.Determinism." + t for t in [
         "C01_isort_perm", "C01_isort_perm_nodup", "C01_isortDesc_perm", "isort_unique", "isortDesc_unique",
         "commitOps_perm", "precommitOps_perm", "identityPrecommitOps_perm", "root_eq_of_ops_eq", "committee_perm",
@@ -8,11 +8,13 @@ PROP = {
         "finalCommitteeRewards_sum_le", "finalCommitteeRewards_conserved",
         "nextValidationTime_tz_indep", "epochDays_tz_indep", "nextValidation_fixed_eq_asFound_utc", "nextValidationTime_local_tz_dep",
         "weekday_is_a_weekday", "iterate_sorted_perm", "iterate_order_dependent"]] + ["IdenaModel.CeremonyEpoch." + t for t in [
-        "remove_newer", "inv_step", "inv_run", "answers_function_of_chain", "same_chain_same_answers", "as_found_counterexample"]],
+        "remove_newer", "inv_step", "inv_run", "answers_function_of_chain", "same_chain_same_answers", "as_found_counterexample"]] + ["IdenaModel.Shards." + t for t in [
+        "shardsNum_pos", "shardsNum_grow_bound", "grow_prev", "shrink_pow", "shardsNum_stable"]],
     "channels": [
         {"name": "C01census", "exe": "oracle_c01"},
         {"name": "C01time", "exe": "oracle_c01"},
         {"name": "C01order", "exe": "oracle_c01"},
+        {"name": "C01shards", "exe": "oracle_c01h"},
         {"name": "C01", "exe": "oracle_c01h", "timeout": {"quick": 1500, "thorough": 14000}},
     ],
     "trusted_base": [
